@@ -35,7 +35,7 @@ class Observer:
         obs = self
 
         def conform(filename, *a, **kw):
-            rec = {"file": os.path.relpath(filename, obs.root) if obs.root else os.path.basename(filename), "exists": os.path.isfile(filename), "found": None, "cmp_eq": None,
+            rec = {"file": os.path.relpath(os.path.realpath(os.path.expanduser(filename)), obs.root) if obs.root else os.path.basename(filename), "exists": os.path.isfile(filename), "found": None, "cmp_eq": None,
                    "replaced": None, "same_program": None, "writes": []}  # fmt: skip
             obs.files.append(rec)
             obs.cur = rec
